@@ -66,7 +66,8 @@ def vet(src, sid):
         run = "go test -vet=off -count=1 -run 'Demo|Seed|C[0-9]+' ./%s" % pkg
         # find the demo's test names to run exactly them
         names = [l.split("(")[0].replace("func ", "").strip() for l in demo_src.splitlines() if l.startswith("func Test")]
-        run = "go test -vet=off -count=1 -run '^(%s)$' ./%s" % ("|".join(names), pkg)
+        race = "-race -tags verif " if "go test -race" in demo_src else ""  # the demonstration states that it needs the race detector
+        run = "go test %s-vet=off -count=1 -run '^(%s)$' ./%s" % (race, "|".join(names), pkg)
         rc, out = sh(run, wt)
         log.append("demo on unchanged tree: rc=%d" % rc)
         if rc != 0:
